@@ -50,6 +50,10 @@ ExplainPath(e) ==
                           \cup want(m.name # "RegistrationRequest" \/ (Opt(m, 46).has /\ Opt(m, 46).v = a.capab), "UE security capability (IEI 2E) is not the given one")
                           \cup want(m.name # "RegistrationRequest" \/ Opt(m, 16).has = (Len(a.mm) > 0), "5GMM capability (IEI 10) presence")
                           \cup want(m.name # "RegistrationRequest" \/ ~Opt(m, 16).has \/ Opt(m, 16).v = a.mm, "5GMM capability (IEI 10) contents")
+                          \cup want(m.name # "RegistrationRequest" \/ "nssai" \notin DOMAIN a \/ (Opt(m, 47).has /\ Opt(m, 47).v = a.nssai), "requested NSSAI (IEI 2F) is not the given one")
+                          \cup want(m.name # "RegistrationRequest" \/ "uds" \notin DOMAIN a \/ (Opt(m, 64).has /\ Opt(m, 64).v = a.uds), "uplink data status (IEI 40) is not the given one")
+                          \cup want(m.name # "RegistrationRequest" \/ "container" \notin DOMAIN a \/ (Opt(m, 113).has /\ Opt(m, 113).v = a.container), "NAS message container (IEI 71) is not the given message")
+                          \cup want(m.name # "RegistrationRequest" \/ "uds" \in DOMAIN a \/ (~Opt(m, 64).has /\ ~Opt(m, 47).has /\ ~Opt(m, 113).has), "an optional IE that was not asked for is present")
                    [] e.fn = "GetAuthenticationResponse" ->
                           want(m.name = "AuthenticationResponse" /\ Opt(m, 45).has /\ Opt(m, 45).v = a.res, "authentication response parameter (IEI 2D) is not the given RES*")
                    [] e.fn = "GetSecurityModeComplete" ->
